@@ -138,6 +138,28 @@ def run(ctx):
         ctx.ob("C13.EMIT", strm, "%s is emitted iff `%s`" % (label, want[0]), ok, construct="emit %s" % label,
                detail="" if ok else "guard facts: %s" % (sorted(t for t, tv in facts.at(ns[0]) if tv) if ns else "not emitted"),
                analysis="must-hold branch facts")
+    # C13.YEARPAD - the RFC date-time form is fixed width (four-digit year).  strftime's %Y does not zero-pad years
+    # below 1000 on glibc, so a DTSTART / UNTIL written through it is read back as a different (out-of-range) year.
+    def year_directives(node, depth=0):
+        bad = []
+        for x in ast.walk(node):
+            if isinstance(x, ast.Call) and isinstance(x.func, ast.Attribute) and x.func.attr == "strftime":
+                for a in x.args:
+                    for c in ast.walk(a):
+                        if isinstance(c, ast.Constant) and isinstance(c.value, str) and any(d in c.value for d in ("%Y", "%G", "%c", "%x")):
+                            bad.append(src(x))
+            elif isinstance(x, ast.Call) and isinstance(x.func, ast.Name) and depth < 2:
+                h = mod.functions.get(x.func.id) if hasattr(mod, "functions") else None
+                if h is not None:
+                    bad += year_directives(h.node, depth + 1)
+        return bad
+    stamp = [n for n in cfg.live_nodes() if n.kind == "stmt" and n.ast is not None and ("DTSTART:" in src(n.ast) or "UNTIL=" in src(n.ast))]
+    ctx.floor("C13.YEARPAD", len(stamp), 2, "statements of rrule.__str__ that write DTSTART / UNTIL")
+    for n in stamp:
+        bad = year_directives(n.ast)
+        ctx.ob("C13.YEARPAD", strm, "a date-time written by str(rrule) has a fixed-width year (no strftime %Y, which glibc does not zero-pad below 1000: "
+               "the text would be read back as another year)", not bad, construct="emit " + ("DTSTART" if "DTSTART:" in src(n.ast) else "UNTIL"),
+               detail="" if not bad else "year written by %s" % bad[0], analysis="format-directive scan of the emitting statement (ast)")
     fr = [n for n in cfg.live_nodes() if n.kind == "stmt" and "'FREQ='" in src(n.ast)]
     ctx.ob("C13.EMIT", strm, "FREQ is always emitted, from FREQNAMES[self._freq]", len(fr) == 1 and "FREQNAMES[self._freq]" in src(fr[0].ast)
            and cfg.path_avoiding(cfg.entry, [cfg.exit], avoid_nodes=fr) is None, construct="emit FREQ")
